@@ -22,11 +22,48 @@ def merge(tokens):
     return out
 
 
-def linearize(n):
-    """tokens emitted by evaluating node n (statement, block or expression), in evaluation order."""
+_ENV = {"fmt": {}, "clos": {}}
+
+
+def _collect_env(n):
+    """locals that only hold pre-formatted text (`let flags = format!(..)`) and local closures: both are inlined where they are used,
+    so that hoisting a fragment into a local or into a local closure does not change the token sequence"""
+    fmt, clos = {}, {}
+    for x in sir.walk(n):
+        if x.get("k") == "local" and x["pat"].get("k") == "p_ident" and x.get("init") is not None:
+            fc = sir.format_call(x["init"])
+            if fc is not None:
+                fmt[x["pat"]["name"]] = fc
+            elif x["init"].get("k") == "closure":
+                clos[x["pat"]["name"]] = x["init"]
+    return {"fmt": fmt, "clos": clos}
+
+
+def linearize(n, top=False):
+    """tokens emitted by evaluating node n (statement, block or expression), in evaluation order.
+    top=True (a whole function body): (re)collect the inlinable locals of that function first."""
+    global _ENV
+    if top:
+        _ENV = _collect_env(n)
     out = []
     _lin(n, out)
     return merge(out)
+
+
+def _hole(e, out, depth):
+    nm = None
+    if isinstance(e, dict):
+        x = sir.strip_ref(e)
+        if x.get("k") == "path" and len(x["segs"]) == 1:
+            nm = x["segs"][0]
+    if nm is not None and nm in _ENV["fmt"] and depth < 3:
+        for p in _ENV["fmt"][nm]:
+            if p[0] == "lit":
+                out.append(("lit", p[1]))
+            else:
+                _hole(p[1], out, depth + 1)
+        return
+    out.append(("hole", sir.expr_str(e)))
 
 
 def _lin(n, out):
@@ -87,7 +124,7 @@ def _lin(n, out):
                     out.append(("lit", p[1]))
                 else:
                     # evaluate the argument first (it may emit), then the hole
-                    out.append(("hole", sir.expr_str(p[1])))
+                    _hole(p[1], out, 0)
             return
         _lin(n["recv"], out)
         if n["m"] in EMIT_METHODS:
@@ -101,6 +138,18 @@ def _lin(n, out):
             out.append(("closure-call", n["m"], [sir.expr_str(a) for a in n["args"] if a.get("k") != "closure"], [linearize(c["body"]) for c in clos]))
         return
     if k == "call":
+        if n["f"].get("k") == "path" and len(n["f"]["segs"]) == 1 and n["f"]["segs"][0] in _ENV["clos"] and not n.get("_inl"):
+            clo = _ENV["clos"][n["f"]["segs"][0]]
+            for a in n["args"]:
+                if a.get("k") != "closure":
+                    _lin(a, out)
+            # the body of the local closure, with its parameters standing for the arguments
+            sub = []
+            _lin(clo["body"], sub)
+            pn = [b for pp in clo["params"] for b, _p in sir.pat_bindings(pp)]
+            amap = {pn[i]: sir.expr_str(sir.strip_ref(a)) for i, a in enumerate(n["args"]) if i < len(pn)}
+            out.extend(_rename(sub, amap))
+            return
         for a in n["args"]:
             if a.get("k") != "closure":
                 _lin(a, out)
@@ -121,6 +170,32 @@ def _lin(n, out):
         return
     for c in sir.children(n):
         _lin(c, out)
+
+
+def _rename(tokens, amap):
+    import re as _re
+
+    def sub(t):
+        for a, b in amap.items():
+            t = _re.sub(r"\b%s\b" % _re.escape(a), b, t)
+        return t
+    out = []
+    for t in tokens:
+        if t[0] == "hole":
+            out.append(("hole", sub(t[1])))
+        elif t[0] == "call":
+            out.append(("call", t[1], sub(t[2]), sub(t[3])))
+        elif t[0] == "if":
+            out.append(("if", sub(t[1]), _rename(t[2], amap), _rename(t[3], amap)))
+        elif t[0] == "match":
+            out.append(("match", sub(t[1]), [(p, _rename(b, amap)) for p, b in t[2]]))
+        elif t[0] == "for":
+            out.append(("for", sub(t[1]), _rename(t[2], amap)))
+        elif t[0] == "closure-call":
+            out.append(("closure-call", t[1], [sub(x) for x in t[2]], [_rename(c, amap) for c in t[3]]))
+        else:
+            out.append(t)
+    return out
 
 
 def flat_text(tokens, hole="\x00"):
